@@ -59,7 +59,9 @@ def positive_literals(ctx, crate, crs, tag):
         fn = q.enclosing_fn(crate, b)
         ok = fn in allowed
         detail = allowed.get(fn, "positive literal created in a function that is not a Requires/helper encoder")
-        if fn == ENC + "on_requirement_candidates_available":
+        if fn == AFMC:
+            ok = True
+        if fn in (ENC + "on_requirement_candidates_available", AFMC):
             # receiver must be the *second* callback argument (the helper variable), never the candidate itself
             d = b.origin(t["args"][0])
             ok = d["k"] == "arg" and d["l"] == 3
@@ -77,7 +79,7 @@ def positive_literals(ctx, crate, crs, tag):
             ctx.ob(R, fn, "Literal::new(_,false)", fn.endswith("::positive") or b.crate.is_test, where_call(b, i),
                    "a constant positive literal may only be built by VariableId::positive")
     # the AtMostOnceTracker callback: helper variables come from alloc_forbid_multiple_variable
-    b = body_by_key(crate, ENC + "on_requirement_candidates_available")
+    b = view(crate, ENC + "on_requirement_candidates_available", [AFMC])
     if b is not None:
         adds = b.calls_to("resolvo::solver::binary_encoding::AtMostOnceTracker::add")
         okh = False
